@@ -275,6 +275,19 @@ func (g *G) Expr(depth int, ctx ECtx) Expr {
 		for i, n := 0, 1+g.n("nvals", 3); i < n; i++ {
 			in.Vals = append(in.Vals, sub())
 		}
+		if g.chance("twinvals", 5) {
+			// a number and the string that spells it, and one value twice:
+			// different constants stay different, repetitions change nothing
+			tw := pickFrom(g, "twin", [][2]string{{"7", "7"}, {"0x7", "7"}, {"007", "7"}, {"1", "1"}, {"1.0", "1"}, {"2", "2"}})
+			pair := []Expr{&Num{Text: tw[0]}, &Str{Value: tw[1]}}
+			if g.chance("twinflip", 2) {
+				pair[0], pair[1] = pair[1], pair[0]
+			}
+			in.Vals = append(in.Vals, pair...)
+			if g.chance("twinrepeat", 2) {
+				in.Vals = append(in.Vals, pair[0])
+			}
+		}
 		return in
 	case k < 14:
 		x := sub()
